@@ -24,6 +24,8 @@ ASSUMPTIONS = ['a stream read with a /Length different from its payload length d
                'documented reading of layouts: the /Length of an xref stream is direct; /W widths are at most 4 bytes '
                '(wider fields are refused by XrefStreamP: C13)']
 CASE_TIMEOUT = 60
+XC_MAXLEN = 5000
+XC_CASES = 10
 
 
 def doc(rng, **kw):
@@ -58,7 +60,7 @@ def fixed_doc_cases(rng, tier):
         for w0 in (0, 1, 2, 4):
             for w1 in (1, 2, 3, 4):
                 for w2 in (0, 1, 2, 4):
-                    add(*mk(('stream',), dict(W=(w0, w1, w2))))
+                    add(*mk(('stream',), dict(W=(w0, w1, w2), obj0=(w0 != 0))))     # w0 = 0 needs a section of type-1 entries only
         # /Index, self entry, filters
         for index in (True, False):
             for selfent in (True, False):
